@@ -22,7 +22,7 @@
         fields of embedded structs), distinct properties distinct fields, the field's declared type is
         either the property's reflected type or a pointer to it
      /\ optional_fields_representable:
-          every property that is not required sits on a field whose zero value reads as "absent"
+          every property that is neither required nor given a default sits on a field whose zero value reads as "absent"
           (a pointer, a nil interface, or the property is marked treat-empty-as-default and the zero
           value DeepEquals the empty value) — otherwise D44;
           a treat-empty-as-default property is not required, has no required_if / required_if_not of its
@@ -289,8 +289,15 @@ Definition xempty_ok (np : string * xproperty) : bool :=
     && forallb (fun nq => negb (str_in (fst np) (p_required_if_not (snd nq)))) props
   else true.
 
+(* a property with a (decodable) default is always set by Unserialize *)
+Definition xhas_default (np : string * xproperty) : bool :=
+  match p_default (snd np) with
+  | Some txt => match xdecode_default (xe_or e) (snd np) txt with Some _ => true | None => false end
+  | None => false
+  end.
+
 Definition optional_fields_representable : bool :=
-  forallb (fun np => (p_required (snd np) || xabsent_ok np) && xempty_ok np) props.
+  forallb (fun np => (p_required (snd np) || xhas_default np || xabsent_ok np) && xempty_ok np) props.
 
 Fixpoint xnodup_nat (l : list (option nat)) : bool :=
   match l with
@@ -362,7 +369,8 @@ Qed.
 Lemma xd_inj : xnodup_nat (map (fun np => xkidx si (fst np)) props) = true.
 Proof. unfold xrt_desc in Hdesc. apply andb_prop in Hdesc as [H _]. apply andb_prop in H as [_ H]. exact H. Qed.
 
-Lemma xd_opt np : In np props -> (p_required (snd np) || xabsent_ok e si np) && xempty_ok props np = true.
+Lemma xd_opt np : In np props ->
+  (p_required (snd np) || xhas_default e np || xabsent_ok e si np) && xempty_ok props np = true.
 Proof.
   unfold xrt_desc in Hdesc. apply andb_prop in Hdesc as [_ H]. unfold optional_fields_representable in H.
   rewrite forallb_forall in H. apply H.
